@@ -395,6 +395,29 @@ pub fn build_builder(
                 ("{:40?}", catch_unwind(AssertUnwindSafe(|| format!("{:40?}", b))).map_err(|p| panic_msg(&p))),
                 ("{:*<9.1?}", catch_unwind(AssertUnwindSafe(|| format!("{:*<9.1?}", b))).map_err(|p| panic_msg(&p))),
             ];
+            // a formatting attempt that fails half-way (the sink refuses after 16 bytes) leaves nothing
+            // behind: the next `{:?}` gives the same text as before
+            struct Bounded(usize);
+            impl std::fmt::Write for Bounded {
+                fn write_str(&mut self, s: &str) -> std::fmt::Result {
+                    if s.len() > self.0 {
+                        self.0 = 0;
+                        Err(std::fmt::Error)
+                    } else {
+                        self.0 -= s.len();
+                        Ok(())
+                    }
+                }
+            }
+            let _ = catch_unwind(AssertUnwindSafe(|| {
+                use std::fmt::Write;
+                let _ = write!(Bounded(16), "{:?}", b);
+            }));
+            let mut variants = variants;
+            variants.push((
+                "{:?} after an attempt that failed in a bounded sink",
+                catch_unwind(AssertUnwindSafe(|| format!("{:?}", b))).map_err(|p| panic_msg(&p)),
+            ));
             for (spec, t) in variants {
                 if t.as_ref().ok() != Some(plain) {
                     ctx.debug_variants
